@@ -312,6 +312,11 @@ impl<T: HCfg> World<T> {
                             .collect::<Vec<_>>()),
                     );
                     line.insert("buf".into(), Value::Object(bufs));
+                    // the handle getters of the public API, as returned
+                    line.insert(
+                        "hl".into(),
+                        json!([s.local_player_handles(), s.remote_player_handles(), s.spectator_handles()]),
+                    );
                     line.insert("lso".into(), json!(snap.last_sent_outgoing));
                     line.insert(
                         "og".into(),
